@@ -24,7 +24,7 @@ NAME_RE = re.compile(r"^(\d{4,})_(.*)_(\d{4}-\d{2}-\d{2}_\d{6})Z\.mhl$", re.S)
 
 
 def budget(tier):
-    return {"cases": 6000, "seconds": 55} if tier == "quick" else {"cases": 200000, "seconds": 600}
+    return {"cases": 4000, "seconds": 55} if tier == "quick" else {"cases": 200000, "seconds": 600}
 
 
 def run_case(cs):
@@ -57,6 +57,18 @@ def run_case(cs):
                 m = world.mutate(rng, root, tree, rng.choice(["flip", "append", "delete_file", "add_file", "add_file", "touch"]))
                 if m:
                     steps.append(f"edit {m['kind']} {m['path']!r}")
+        if i > 0 and rng.random() < 0.15:
+            # what file managers leave behind inside ascmhl folders: AppleDouble twins of manifests, .DS_Store, stray notes
+            for h in world.find_histories(root):
+                ad = hist.asc_dir(root, h)
+                ms = world.manifests(root, h)
+                if ms and rng.random() < 0.7:
+                    junk = rng.choice(["._" + ms[-1], ".DS_Store", "notes.txt", "._ascmhl_chain.xml", "Thumbs.db"])
+                    if not os.path.exists(os.path.join(ad, junk)):
+                        with open(os.path.join(ad, junk), "wb") as f:
+                            f.write(b"\x00\x05\x16\x07 junk")
+                        steps.append(f"junk {junk!r} in {h!r}")
+                        cs.count("junk_files_in_ascmhl")
         files = sorted(k for k, v in world.read_tree(root).items() if v is not None)
         extra = []
         if files and rng.random() < 0.3:
@@ -100,7 +112,7 @@ def run_case(cs):
                 continue
             name = added[0]
             m = NAME_RE.match(name)
-            prev_nums = [hist.gen_no(n) for n in b if n.endswith(".mhl") and hist.gen_no(n) is not None]
+            prev_nums = [hist.gen_no(n) for n in b if n.endswith(".mhl") and not n.startswith("._") and hist.gen_no(n) is not None]
             want_no = max(prev_nums) + 1 if prev_nums else 1
             folder = os.path.basename(root if h == "." else os.path.join(root, h))
             if not m:
